@@ -20,6 +20,11 @@ const SCOPE_PROGRAMS: &[&str] = &[
     "n := 0\nfn next() {\nn += 1\nreturn $\"${\"abcdef\"[n]}\"\n}\nprint($\"${next()}-${next()}\")\nprint(next() + next())\nprint([next(), next()])\n",
     "x := \"p\"\nfn setx() {\nx = \"q\"\nreturn \"\"\n}\nprint($\"${x}${setx()}${x}\")\nx = \"p\"\nprint(x + setx() + x)\n",
     "x := 0\nfor e in [1, 2] {\nx := 10\nbreak\n}\nprint(x)\nfor e in [1, 2] {\nx := 20\ncontinue\n}\nprint(x)\ni := 0\nwhile i < 2 {\ni += 1\nx := 30\nif i == 1 {\ncontinue\n}\nbreak\n}\nprint(x)\nx := 5\n",
+    "fs := []\nfn lp(i) {\nsq := i * i\nfs += [fn () {\nsq += 1\nreturn [i, sq]\n}]\nif i < 2 {\nreturn lp(i + 1)\n}\nreturn null\n}\nlp(0)\nprint(fs[0]())\nprint(fs[1]())\nprint(fs[2]())\nprint(fs[0]())\n",
+    "fn count(n, acc) {\nstep := fn () {\nreturn n\n}\nif n == 0 {\nreturn acc\n}\nreturn count(n - 1, acc + [step])\n}\nfor [i, s] in count(3, []) {\nprint(s())\n}\n",
+    "level := 1\n{\nlevel := level + 1\nprint(level)\n{\nlevel := level * 10\nprint(level)\n}\n}\nprint(level)\nfn f(item) {\n{\nitem := item\nreturn item\n}\n}\nprint(f(7))\n",
+    "total := 5\nfn peek() {\nreturn total\n}\n{\nfn peek2() {\nreturn total\n}\ntotal := peek2() + peek() + 1\nprint(total)\nprint(peek2())\n}\nprint(total)\n",
+    "greet := \"nobody\"\nfn outer(name) {\n{\npunct := \"!\"\nreturn fn () {\nreturn $\"hello, ${name}${punct}\"\n}\n}\n}\nprint(outer(\"ann\")())\nfn later() {\nf := null\n{\nf = fn () {\nreturn $\"${v}\"\n}\n}\nv := \"late\"\nreturn f()\n}\nprint(later())\n",
     "x := 0\nfn f() {\nfor e in [1, 2] {\nx := 10\nif e[1] == 1 {\ncontinue\n}\nbreak\n}\nx = 7\nreturn fn () {\nreturn x\n}\n}\nprint(f()())\nprint(x)\n",
 ];
 
@@ -291,7 +296,7 @@ pub struct RSt {
     r_def: bool,
 }
 
-const R_NAMES: [&str; 12] = ["print(x)", "x := k", "x = k", "fn r() { print(x); x = k }", "r()", "{", "}", "for(2) {", "[x] = [k]", "{..x} = {\"a\": k}", "break", "if e[1] == 0 { continue }"];
+const R_NAMES: [&str; 13] = ["print(x)", "x := k", "x = k", "fn r() { print(x); x = k }", "r()", "{", "}", "for(2) {", "[x] = [k]", "{..x} = {\"a\": k}", "break", "if e[1] == 0 { continue }", "x := x + 100"];
 
 struct Res;
 
@@ -302,7 +307,7 @@ impl Alphabet for Res {
     }
     fn enabled(&self, st: &RSt) -> Vec<u16> {
         let last = st.ops.last().copied();
-        (0..12u16)
+        (0..13u16)
             .filter(|op| match *op {
                 10 | 11 => st.loops.last() == Some(&true) && last != Some(10) && last != Some(*op),
                 0 => last != Some(0),
@@ -352,6 +357,7 @@ impl Alphabet for Res {
                 s.open.push(0);
                 s.loops.push(true);
             }
+            12 => s.text.push_str("x := x + 100\n"),
             10 => s.text.push_str("break\n"),
             11 => s.text.push_str("if e[1] == 0 {\ncontinue\n}\n"),
             8 => {
